@@ -11,6 +11,7 @@ package nitro
 import "os"
 import "bufio"
 import "errors"
+import "io"
 
 var (
 	// DiskBlockSize - backup file reader and writer
@@ -131,6 +132,14 @@ func (f *rawFileReader) ReadItem() (*Item, error) {
 	itm, checksum, err := f.db.DecodeItem(f.version, f.buf, f.r)
 	if itm != nil { // Checksum excludes terminal nil item
 		f.checksum = f.checksum ^ checksum
+	} else if err == nil {
+		// The terminator ends the file. Data behind it means the file is not
+		// in the format it is read as (or is damaged).
+		if _, perr := f.r.Peek(1); perr == nil {
+			err = ErrCorruptSnapshot
+		} else if perr != io.EOF {
+			err = perr
+		}
 	}
 	return itm, err
 }
